@@ -195,8 +195,13 @@ func (c *Ctx) PendingScanComplete(ob *core.Obligation, r *Roles) {
 		c.Touch(fn)
 		key := "pending-scan:" + core.SSAName(fn)
 		bad := ""
+		pc0 := core.NewPathConds(fn)
 		for _, ret := range core.Returns(fn) {
 			if !head.Dominates(ret.Block()) {
+				// leaving early because there is no pending draw at all is the same thing
+				if pc0.Requires(ret.Block(), func(l core.Lit) bool { return sendersEmptyLit(l, r) }) {
+					continue
+				}
 				bad = "the reader can return (at " + c.P.Pos(ret.Pos()) + ") before it has looked at the pending draws: an account already drawn in this statement would be offered its balance again"
 			}
 		}
@@ -224,16 +229,23 @@ func (c *Ctx) PendingScanComplete(ob *core.Obligation, r *Roles) {
 				if !ok {
 					continue
 				}
-				if tn, m := core.BigMethod(&call.Call); tn != "Int" || m != "Sub" {
+				tn, m := core.BigMethod(&call.Call)
+				if tn != "Int" || (m != "Sub" && m != "Add") {
 					continue
 				}
 				if amountKind(core.CallArgs(&call.Call)[2], r) != "S" {
 					continue
 				}
+				if m == "Add" {
+					// the draws are added up first: the sum must be subtracted once after the loop
+					if !subtractedAfter(fn, core.CallArgs(&call.Call)[0], head.Succs[1]) {
+						continue
+					}
+				}
 				subs++
 				for _, term := range pc.At(b) {
 					for _, l := range term {
-						if rangeLit(l) {
+						if rangeLit(l) || sendersLenLit(l, r) {
 							continue
 						}
 						bo, ok := l.Cond.(*ssa.BinOp)
@@ -260,6 +272,58 @@ func (c *Ctx) PendingScanComplete(ob *core.Obligation, r *Roles) {
 }
 
 func rangeLit(l core.Lit) bool { return isRangeCond(l.Cond) }
+
+// sendersLenLit: the literal compares the length of the pending senders list with a constant.
+func sendersLenLit(l core.Lit, r *Roles) bool {
+	bo, ok := l.Cond.(*ssa.BinOp)
+	if !ok {
+		return false
+	}
+	for _, side := range []ssa.Value{bo.X, bo.Y} {
+		if lc, ok := core.Strip(side).(*ssa.Call); ok && isLenCall(lc) {
+			if ld, ok := lc.Call.Args[0].(*ssa.UnOp); ok && core.FieldOf(ld.X) == r.SendersF {
+				return true
+			}
+		}
+	}
+	return false
+}
+
+// sendersEmptyLit: the literal says the pending senders list is empty.
+func sendersEmptyLit(l core.Lit, r *Roles) bool {
+	if !sendersLenLit(l, r) {
+		return false
+	}
+	bo := l.Cond.(*ssa.BinOp)
+	k, ok := core.ConstInt(bo.Y)
+	if !ok {
+		return false
+	}
+	switch bo.Op {
+	case token.EQL:
+		return k == 0 && l.Val
+	case token.NEQ:
+		return k == 0 && !l.Val
+	case token.GTR:
+		return k == 0 && !l.Val
+	case token.LSS:
+		return k == 1 && l.Val
+	}
+	return false
+}
+
+// subtractedAfter: after the block `after`, the number acc is the subtrahend of a Sub.
+func subtractedAfter(fn *ssa.Function, acc ssa.Value, after *ssa.BasicBlock) bool {
+	key := cellKey(acc)
+	for _, ci := range core.Calls(fn) {
+		if tn, m := core.BigMethod(ci.Common()); tn == "Int" && m == "Sub" && after.Dominates(ci.Block()) {
+			if cellKey(core.CallArgs(ci.Common())[2]) == key {
+				return true
+			}
+		}
+	}
+	return false
+}
 
 func fieldOfLoad(v ssa.Value) *types.Var {
 	v = core.Strip(v)
